@@ -356,7 +356,7 @@ func selftestClass(out string) string {
 
 func TestC17(t *testing.T) {
 	runXProp(t, xProp{id: "C17",
-		rule: "well-formed programs (every field kind x repeat x nesting, every match key form, all option configurations; canonical identifier shapes) are compiled; the self-tests emitted next to each codec are built and run with the language's own runner (go test binary with the real testify; rustc --test; a reflective JUnit stand-in over every *Test class; python -m unittest; the C++ test file against a 40-line gtest stand-in): they must build, every test must pass, and at least one test per declared top-level packet must have run. Non-trivial = the program contains a nested, a repeated or a match member; distinct = hash of (program, languages); evaluations = languages exercised.",
+		rule: "well-formed programs (every field kind x repeat x nesting, every match key form, all option configurations; a quarter of the programs with non-canonical identifier shapes for packets and fields) are compiled; the self-tests emitted next to each codec are built and run with the language's own runner (go test binary with the real testify; rustc --test; a reflective JUnit stand-in over every *Test class; python -m unittest; the C++ test file against a 40-line gtest stand-in): they must build, every test must pass, and at least one test per declared top-level packet must have run. Non-trivial = the program contains a nested, a repeated or a match member; distinct = hash of (program, languages); evaluations = languages exercised.",
 		eval: evalC17, tests: true,
 		cfg: func(rt *rapid.T, avoid map[string]bool) (dsl.GenCfg, int, dsl.ValCfg, bool) {
 			c, _, v, _ := defaultXCfg(rt, avoid)
